@@ -181,7 +181,7 @@ func init() {
 					// the two: AddShares on one outcome, ReduceShares on the other
 					ga, okA := directionGuard(fa, add[0])
 					gr, okR := directionGuard(fa, red[0])
-					ok = ok && okA && okR && ga.Cond.String() == gr.Cond.String() && ga.Pos != gr.Pos
+					ok = ok && okA && okR && oppositeDirections(ga, gr)
 				}
 				r.Check(ok, FuncKey(fn), "add/remove dispatch", "isAdd -> AddShares(delegationShares, validatorShares), else ReduceShares(same)", "updateValidatorShares does not pass its two share arguments straight to AddShares/ReduceShares under isAdd", e.Pos(fn.Pos()))
 				sv := CallsTo(fn, "keeper.Keeper.SetValidator")
@@ -562,4 +562,48 @@ func (e *Engine) sharesDirection(fa *FuncAnalysis, c ssa.CallInstruction) string
 		return "true"
 	}
 	return "false"
+}
+
+
+// directionFact reads a direction guard as "parameter == value" (eq) or "parameter != value".  A bool parameter used as
+// the condition is `== true`; for bools `!= true` is `== false`.
+func directionFact(g Guard) (value string, eq bool, ok bool) {
+	if g.Cond.Op == "param" {
+		if g.Pos {
+			return "true", true, true
+		}
+		return "false", true, true
+	}
+	if g.Cond.Op == "binop" && len(g.Cond.Args) == 2 && (g.Cond.Name == "==" || g.Cond.Name == "!=") {
+		c := g.Cond.Args[1]
+		if c.Op != "const" {
+			c = g.Cond.Args[0]
+		}
+		if c.Op != "const" {
+			return "", false, false
+		}
+		eq := (g.Cond.Name == "==") == g.Pos
+		v := c.Name
+		if !eq && (v == "true" || v == "false") {
+			return map[string]string{"true": "false", "false": "true"}[v], true, true
+		}
+		return v, eq, true
+	}
+	return "", false, false
+}
+
+// oppositeDirections: the two guards select disjoint values of the direction parameter.
+func oppositeDirections(a, b Guard) bool {
+	va, ea, oka := directionFact(a)
+	vb, eb, okb := directionFact(b)
+	if !oka || !okb {
+		return false
+	}
+	switch {
+	case ea && eb:
+		return va != vb
+	case ea != eb:
+		return va == vb
+	}
+	return false
 }
